@@ -28,7 +28,7 @@ o == Trace[i]
 Bad(name) == PrintT(<<"BAD", name, i>>)
 
 WellFormed == /\ o.D \in Nat /\ o.x \in Int /\ o.onint \in {"die", "ignore"} /\ o.ok \in BOOLEAN /\ o.neg \in BOOLEAN
-              /\ o.after \in Nat /\ o.start \in Int /\ o.sig \in Int /\ o.selfexit \in Int /\ o.last \in Int /\ o.done \in Int /\ o.rundone \in Int
+              /\ o.after \in Nat /\ o.start \in Int /\ o.prevend \in Int /\ o.sig \in Int /\ o.selfexit \in Int /\ o.last \in Int /\ o.done \in Int /\ o.rundone \in Int
               /\ o.hung \in BOOLEAN /\ o.alive \in BOOLEAN /\ o.s \in Nat /\ o.srun \in Nat /\ o.jit \in Nat /\ o.gap \in Nat
               /\ o.verdict \in {"pass", "fail", "skip", "none"}
               /\ o.msg \in {"none", "timedout", "cmdfail", "cmdsuccess", "other"}
@@ -49,4 +49,5 @@ InvSDoneByDeadline       == SDoneByDeadline(o) \/ Bad("SDoneByDeadline")
 InvSEarlyUndelayed       == SEarlyUndelayed(o) \/ Bad("SEarlyUndelayed")
 InvSLateKillNotBeforeGrace == SLateKillNotBeforeGrace(o) \/ Bad("SLateKillNotBeforeGrace")
 InvSLateKillOnTime       == SLateKillOnTime(o) \/ Bad("SLateKillOnTime")
+InvHLateKillNotBeforeGrace == HLateKillNotBeforeGrace(o) \/ Bad("HLateKillNotBeforeGrace")
 =============================================================================
